@@ -870,6 +870,25 @@ class Statics:
         "last_modification_date": (["C16"], {
             "ascmhl.hashlist.MHLMediaHash.__init__", "ascmhl.hashlist.MHLHashList.find_or_create_media_hash_for_path"}),
         "child_history_mappings": (["C08"], {"ascmhl.history.MHLHistory.__init__", "ascmhl.history.MHLHistory._update_child_history_mapping"}),
+        # the recorded path of a record / reference is set where the record is created (relative to the owning history) and never rewritten
+        "path": (["C02", "C08"], {
+            "ascmhl.hashlist.MHLMediaHash.__init__", "ascmhl.hashlist.MHLHashListReference.__init__", "ascmhl.hashlist_xml_parser.parse",
+            "ascmhl.hashlist.MHLHashList.find_or_create_media_hash_for_path", "ascmhl.hashlist_xml_parser._process_info_xml_element",
+            "ascmhl.commands.commit_session_for_collection"}),
+        "is_directory": (["C02", "C07"], {
+            "ascmhl.hashlist.MHLMediaHash.__init__", "ascmhl.hashlist_xml_parser.parse",
+            "ascmhl.generator.MHLGenerationCreationSession.append_directory_hashes",
+            "ascmhl.generator.MHLGenerationCreationSession.append_multiple_format_directory_hashes"}),
+        "referenced_hash_lists": (["C08"], {"ascmhl.hashlist.MHLHashList.__init__", "ascmhl.generator.MHLGenerationCreationSession.commit",
+                                            "ascmhl.history.MHLHistory._resolve_hash_list_references"}),
+        "ignore_spec": (["C12"], {
+            "ascmhl.hashlist.MHLProcessInfo.__init__", "ascmhl.hashlist_xml_parser.parse", "ascmhl.generator.MHLGenerationCreationSession.__init__",
+            "ascmhl.generator.MHLGenerationCreationSession.commit"}),
+        "_ignore_list": (["C12"], {"ascmhl.ignore.MHLIgnoreSpec.__init__", "ascmhl.ignore.MHLIgnoreSpec.set_patterns",
+                                   "ascmhl.ignore.MHLIgnoreSpec._append_patterns_list"}),
+        "creation_date": (["C16", "C19"], {
+            "ascmhl.hashlist.MHLCreatorInfo.__init__", "ascmhl.hashlist_xml_parser.parse", "ascmhl.commands.commit_session",
+            "ascmhl.commands.commit_session_for_collection"}),
     }
     MUTATORS = {"append", "extend", "insert", "remove", "pop", "clear", "sort", "reverse", "update", "setdefault", "popitem", "__setitem__", "__delitem__"}
 
@@ -887,7 +906,8 @@ class Statics:
                     elif isinstance(ch, ast.ClassDef) and not owner.endswith(")"):
                         o = owner + "." + ch.name
                     if isinstance(ch, ast.Attribute) and isinstance(ch.ctx, (ast.Store, ast.Del)):
-                        sites.append((ch.attr, o, ch.lineno, "assignment"))
+                        own = isinstance(ch.value, ast.Name) and ch.value.id == "self" and o.endswith(".__init__()")
+                        sites.append((ch.attr, o, ch.lineno, "constructor-initialisation" if own else "assignment"))
                     if isinstance(ch, ast.Subscript) and isinstance(ch.ctx, (ast.Store, ast.Del)) and isinstance(ch.value, ast.Attribute):
                         sites.append((ch.value.attr, o, ch.lineno, "subscript store"))
                     if isinstance(ch, ast.Call):
@@ -946,7 +966,9 @@ class Statics:
                 # modular frame rule: a writer outside the table is fine if it is a helper whose every caller (over the
                 # call graph of the package, transitively) has the field in its frame - then the store still happens
                 # inside the dynamic extent of a function the table allows (e.g. a helper extracted from append_file_hash)
-                ok = owner in frame or self.helper_of(owner, frame)
+                # a constructor storing to a field of its own fresh object is inside every frame (fresh objects are not in
+                # anybody's pre-state): classes added later may reuse a field name such as `path`
+                ok = owner in frame or how == "constructor-initialisation" or self.helper_of(owner, frame)
                 self.ob(pid, owner, f"heap-frame-{field}@{how.replace(' ', '-')}#{sum(1 for o in self.obs if o['name'].startswith(owner + ':heap-frame-' + field))}", ok,
                         f"{how} of field `{f}` at line {ln} of {owner}: the field is outside this function's frame; the contracts of "
                         f"{', '.join(sorted(x.split('.')[-2] + '.' + x.split('.')[-1] for x in frame))} are the only writers the property's argument allows", ln)
@@ -991,7 +1013,7 @@ def run(pid, tier, repo_root=None):
         s.c06()
     elif pid == "C16":
         s.c06()
-    if pid in ("C02", "C04", "C06", "C07", "C08", "C16", "C17", "C18"):
+    if pid in ("C02", "C04", "C06", "C07", "C08", "C12", "C16", "C17", "C18", "C19"):
         s.heap_frames(pid)
     return [o for o in s.obs if pid in o["props"]]
 
@@ -999,7 +1021,7 @@ def run(pid, tier, repo_root=None):
 if __name__ == "__main__":
     import sys
 
-    for pid in [a for a in sys.argv[1:] if not a.startswith("-")] or ["C02", "C04", "C05", "C06", "C07", "C08", "C12", "C14", "C15", "C16", "C17", "C18", "C20"]:
+    for pid in [a for a in sys.argv[1:] if not a.startswith("-")] or ["C02", "C04", "C05", "C06", "C07", "C08", "C12", "C14", "C15", "C16", "C17", "C18", "C19", "C20"]:
         obs = run(pid, "quick")
         bad = [o for o in obs if o["verdict"] != "discharged"]
         print(pid, len(obs), "obligations,", len(bad), "not discharged")
